@@ -1,3 +1,4 @@
+import collections
 import os
 import hashlib
 import json
@@ -94,6 +95,9 @@ class DumperBase(DataStreamProcessor):
             )
             ret = self.row_counter(resource, ret)
             yield ret
+            # whatever comes next may have stopped reading this resource before its end:
+            # what is dumped is all of it
+            collections.deque(ret, maxlen=0)
 
         # Calculate datapackage hash
         if self.datapackage_hash:
